@@ -914,7 +914,7 @@ Fixpoint c01_reqs (auth : option authenticator) (p : policy) (toks : list (list 
       let a := handle auth p raw (kind =? 1) au hp o in
       let route := dispatch (kind =? 1) au in
       let tcp := match route with RConnect => if a_egress a && (a_status a =? 200) then 1 else 0 | _ => 0 end in
-      let udp := match route with RUdp => if a_egress a && negb (is_nil payload) then 1 else 0 | _ => 0 end in
+      let udp := match route with RUdp => if a_egress a && (a_status a =? 200) && negb (is_nil payload) then 1 else 0 | _ => 0 end in
       [a_status a; if a_challenge a then 1 else 0; a_warning a; tcp; udp; if a_names_host a then 1 else 0]
         :: c01_reqs auth p rest f
     | _ => []
@@ -1173,7 +1173,8 @@ Definition c20_scrub (toks : list (list N)) : list (list N) :=
 Definition c19_front (toks : list (list N)) : list (list N) :=
   match toks with
   | [mask] :: _ =>
-    let bits := filter (fun b => negb (N.land mask b =? 0)) [1; 2; 4; 8; 16] in
+    (* 64 = an HTTP/1.1 tunnel whose upload is stalled: a session like the others *)
+    let bits := filter (fun b => negb (N.land mask b =? 0)) [1; 2; 4; 8; 16; 64] in
     let k := S (length bits) in                       (* the listener is participant 0 *)
     let idx := seq 0 k in
     let hist := repeat Register k ++ map Wait idx ++ [Submit] in
